@@ -50,8 +50,11 @@ class Monitored:
                                   'session': s})
         # what this client now believes about flags, for the comparison with the model's
         # client (the identity of a position is taken from the server's list)
+        # (not at the IDLE step itself: when IDLE reports pending changes at once the server is
+        # already one wake-up ahead of what this client has read; the wake step follows)
         if sh.view is not None and server_sorted is not None and len(sh.view) == len(server_sorted) \
-                and isinstance(trace.steps[idx][2], dict):
+                and isinstance(trace.steps[idx][2], dict) \
+                and not (kind == 'cmd' and label[2][0] == 'idle'):
             trace.steps[idx][2]['beliefs'] = {
                 s: [(u, sorted(t.flags - {RECENT})) for t, u in zip(sh.view, server_sorted)
                     if t.flags is not None]}
